@@ -69,6 +69,12 @@ naturals_spec = st.fixed_dictionaries(
 )
 
 
+# excess over the bound in units of eps: both sides of the threshold and close to it, so that a
+# threshold that is relative to occ_max (occ_max * (1 + eps), eps / occ_max, ...) or has a different
+# factor is told apart from the documented absolute one for every occ_max (C20-seed7)
+_EXCESS = [0.6, 0.9, 1.1, 1.5, 1.9, 0.3, 3.0, 30.0]
+
+
 def build_naturals(spec):
     rng = np.random.Generator(np.random.PCG64(spec["payload_seed"]))
     n = spec["n"]
@@ -92,10 +98,10 @@ def build_naturals(spec):
         occs = np.where(rng.uniform(size=n) < 0.5, 0.0, rng.uniform(0, occ_max, size=n))
     elif kind == "negative":
         occs = rng.uniform(0, occ_max, size=n)
-        occs[rng.integers(n)] = -rng.choice([0.3, 3.0, 30.0]) * (eps + 1e-5) - 2e-6
+        occs[rng.integers(n)] = -rng.choice(_EXCESS) * (eps if eps > 0 else 1e-5)
     elif kind == "above_max":
         occs = rng.uniform(0, occ_max, size=n)
-        occs[rng.integers(n)] = occ_max + rng.choice([0.3, 3.0, 30.0]) * (eps + 1e-5) + 2e-6
+        occs[rng.integers(n)] = occ_max + rng.choice(_EXCESS) * (eps if eps > 0 else 1e-5)
     else:
         occs = rng.uniform(-0.2, occ_max + 0.2, size=n)
     # keep away from the boundary of check_dm
